@@ -5,15 +5,16 @@ ROOT = os.path.join(os.path.dirname(os.path.abspath(__file__)), "..")
 NOTE = ("Trusted: TLC; the single-threaded controlled executor of /verif/harness (gate futures, flag waker); futures' combinators and "
         "tokio's channels for waker registration inside the join-based bodies; the TLA+ transcriptions of interruptible 0.2.4 and "
         "petgraph Topo. Design level is exhaustive only within the stated bounds (N <= 3 quick / 4 thorough); code level covers the "
-        "graphs, option sets and schedules the harness enumerated or sampled (counts in the evidence file).")
+        "graphs, option sets and schedules the harness enumerated or sampled (counts in the evidence file), on two builds of fn_graph: "
+        "features interruptible+graph_info(+verif_hooks) and the default feature set.")
 TXT = {
  "C01": "Design: TLC proves, for all DAGs on <=3 (thorough 4) nodes and every interleaving of scheduler, queuer and environment, that no two path-related functions are in flight (Run, StreamApi) and that build() joins every conflicting pair by a path (Builder). Code: TLC evaluates the end-to-end predicate (declared accesses, not the built graph) at every hand-out of every recorded trace: all schedules of small graphs x declarations x option sets, plus seeded random larger ones.",
  "C02": "Design: invariant over all DAGs/interleavings that every started function has all transitive predecessors (successors in reverse) ended. Code: TLC checks it at each start/yield against the closure of the user edges recorded from the builder calls.",
- "C03": "Design: at-most-once as invariant; exactly-once at return of clean runs; channel capacity is a model parameter whose reduction fails. Code: same predicates on every start/return/stream-end event, incl. wide graphs (20-80 functions).",
- "C04": "Design: invariant `idle and nothing in flight implies returned`, no panic action reachable, everything started ended at return, and <>returned under fairness, for graphs from 0 nodes. Code: idleness is observed (Pending and waker flag not set) at every poll of every schedule explored; panics are caught and judged.",
- "C05": "Design: the poll function of stream() is transcribed with tokio's waker registration; invariant NoStall after every Pending poll over all poll/drop interleavings (all DAGs on <=3, thorough 4-5 functions), end-exactness, liveness under a fair consumer. Code: every interleaving of polls and FnRef drops (never a spurious poll) for small graphs; random, sequential and batching consumers on graphs up to 140 functions, also inside a tokio runtime (cooperative budget); every poll and drop is additionally compared with the model's predicted outcome and waker flag (TraceStream).",
+ "C03": "Design: at-most-once as invariant; exactly-once at return of clean runs; channel capacity is a model parameter whose reduction fails. Code: same predicates on every start/return/stream-end event, incl. wide graphs (20-140 functions), graphs with 256+ predecessors per function and streams over 1024+ root functions.",
+ "C04": "Design: invariant `idle and nothing in flight implies returned`, no panic action reachable, everything started ended at return, and <>returned under fairness, for graphs from 0 nodes. Code: idleness is observed (Pending and waker flag not set) at every poll of every schedule explored, incl. user futures that are ready on their first poll and tokio task polls whose cooperative budget runs out inside fn_graph's own channel/lock operations (budget sweeps); panics are caught and judged; both feature builds.",
+ "C05": "Design: the poll function of stream() is transcribed with tokio's waker registration; invariant NoStall after every Pending poll over all poll/drop interleavings (all DAGs on <=3, thorough 4-5 functions), end-exactness, liveness under a fair consumer. Code: every interleaving of polls and FnRef drops for small graphs, incl. a second consumer task taking over with its own waker; random, sequential and batching consumers on graphs up to 140 functions, also inside a tokio runtime (cooperative budget); every poll and drop is additionally compared with the model's predicted outcome and waker flag (TraceStream).",
  "C06": "Design: invariant at idle states of unlimited, unsignalled, failure-free runs; Builder invariant that every non-user edge is a Data edge between conflicting functions. Code: evaluated at every observed quiescent point against the built edges the code reports.",
- "C07": "Design: invariants for every failing subset (<=2-3) of every DAG: no descendant of a failed function started, errors = failed at return, try_fold stops. Code: same on every trace of the try APIs with failing functions at every position.",
+ "C07": "Design: invariants for every failing subset (<=2-3) of every DAG: no descendant of a failed function started, errors = failed at return, try_fold stops. Code: same on every trace of the try APIs with failing functions at every position, incl. functions failing on their first poll and failures coinciding with an exhausted tokio budget.",
  "C08": "Design: InterruptibleStream transcribed (IStream, also checked alone over an arbitrary inner stream); bound on functions handed out by the ready stream after the signal for every signal position incl. mid-poll and pre-pending; the bound on STARTS is shown to fail for the for_each bodies under a mid-poll signal (expected-to-fail design run). Code: signal fired at every between-poll point of every schedule and from inside completing user futures, senders dropped early, tokio budget on; TLC counts starts after the signal. One known finding (mid-poll signal, for_each bodies) is listed in known_findings.json and printed as KNOWN-FINDING.",
  "C09": "Design: outcome fields vs observation history at return on every exit path. Code: `return` event compared by TLC with the start events of the same run.",
  "C10": "Design: |running| <= limit invariant, completion under every limit (liveness cfg). Code: checked at each start; completion through the clean-run clause.",
@@ -21,7 +22,7 @@ TXT = {
  "C12": "Design: direction rule and no-redundant-edge as invariants; algorithm = functional twin. Code: judged on `build` events and on `==` of same / one-edit call sequences.",
  "C13": "Design: terminal ranks = longest chain for every child visiting order. Code: `ranks()` compared by TLC with LongestChain of the accepted user edges.",
  "C14": "Design: petgraph Topo transcribed, every neighbour order, failing position. Code: every sequential API on every builder input, one failing position per input.",
- "C15": "Design: two Run instances over one graph, second starts after return or abort of the first; frame property. Code: histories of 2-3 runs incl. aborted ones; each run judged from a fresh abstract state and re-executed alone on a fresh graph, traces compared event by event by TLC.",
+ "C15": "Design: two Run instances over one graph, second starts after return or abort of the first; frame property. Code: histories of 2-3 (a fifth of them 5-9) runs incl. aborted ones; each run judged from a fresh abstract state and re-executed alone on a fresh graph, traces compared event by event by TLC.",
  "C16": "Design: all call sequences (<=3-4 calls, batches <=2) over 3 functions; rejection iff closes a cycle w.r.t. the closure before the call. Code: result of each recorded call compared with Build!ApplyEdge(s).",
  "C17": "Design: GraphInfo is the built edge sequence + mapped nodes (Build twin); Topo for iter. Code: from_graph, serde_json round trip, iter/iter_rev recorded and judged. The codec itself is not modelled.",
  "C18": "Design: pop bound n^2+n invariant for every DAG/child order (N<=3-4) and K6/K7; the as-found push rule fails at K7. Code: hook counter of queue pops on K_n (n<=14/18), layered, random dense graphs.",
@@ -42,9 +43,10 @@ for pid in [f"C{i:02d}" for i in range(1, 21) if i != 19]:
     ))
 m = dict(
     version=1,
-    setup_cmd="cd /verif/harness && CARGO_NET_OFFLINE=true cargo build --release --offline --features hooks",
+    setup_cmd=("cd /verif/harness && CARGO_NET_OFFLINE=true cargo build --release --offline --features hooks && "
+               "CARGO_NET_OFFLINE=true cargo build --release --offline --no-default-features --target-dir target-plain"),
     hooks=dict(guard="verif_hooks (cargo feature of fn_graph)",
-               enable="the harness depends on fn_graph by path with features interruptible, graph_info and (harness feature `hooks`) verif_hooks; every check runs `cargo build --release --offline --features hooks` in /verif/harness first",
+               enable="the harness depends on fn_graph by path with features interruptible, graph_info and (harness feature `hooks`) verif_hooks; every check runs `cargo build --release --offline --features hooks` in /verif/harness first, and a second build `--no-default-features --target-dir target-plain` of the same harness against fn_graph with its default features (no interruptible, hooks off)",
                baseline_off_cmd="cd /repo && cargo test --workspace --no-fail-fast --offline",
                source_commits=["427534a"], add_only=True),
     engines=[dict(name="tla-trace", path="/verif/vcheck", serves_properties=[c["property_id"] for c in checks],
